@@ -33,7 +33,7 @@ PROPS = {
     'C01': P('C01', [('codepair', 10000, 80000), ('lines', 600, 4800), ('inlineops', 7500, 60000), ('link', 10000, 80000), ('entity', 10000, 80000), ('url', 10000, 80000), ('smap', 300, 2400), ('block', 6000, 48000), ('inline', 5000, 40000), ('pipeline', 1500, 12000), ('pipetabs', 1000, 8000), ('html', 6000, 48000), ('blockh', 2500, 20000), ('inlineh', 2500, 20000)], ('C01', 30000, 240000),
              "oracle: parse->render->xrender under catch_unwind on grammar/spec/mutated/adversarial/malformed documents x configuration sample (subsets, orders, max_nesting); non-trivial = contains a markdown-significant character; distinct by hash of (cfg, source)",
              ["whole-pipeline totality theorem is _partial: mechanism theorems + rule-level correspondence + oracle cover the composition",
-              "hang = wall time beyond 2 s + 1 ms/byte; stack exhaustion is covered by C02"], extra_modules=(('InlineH', r'total|fuel|no_panic|progress|conservative|bounds|fires|advances|memo|guard|spec'), ('BlockH', r'total|fuel|noPanic|progress|conservative'), ('Html', r'no_panic|progress|overflow|link_level|tagMatch_spec|tagRest'), 'GenHtml', 'TotalTabs', 'MemoSafe', 'InlineTotal', 'BlockTotal', ('DocTotal', r'panic_inline_only|parseDoc_blocks_ok'), ('EmphDepthDoc', r'doc_full_depth_bounded'), 'GenC17', 'GenC02', ('Pipeline', r'parseDoc_panic|renderDoc_panic|doc_render_total|spliceNode_panic|sourceposNode_total'), ('Block', r'progress|tokenize_spec|ruleAt'), ('Inline', r'progress|fuel|contracts'),)),
+              "hang = wall time beyond 2 s + 1 ms/byte; stack exhaustion is covered by C02"], extra_modules=(('InlineH', r'total|fuel|no_panic|progress|conservative|bounds|fires|advances|memo|guard|spec'), ('BlockH', r'total|fuel|noPanic|progress|conservative'), ('Html', r'no_panic|progress|overflow|link_level|tagMatch_spec|tagRest'), 'GenHtml', ('GenTranslated', r'is_odd_match'), 'TotalTabs', 'MemoSafe', 'InlineTotal', 'BlockTotal', ('DocTotal', r'panic_inline_only|parseDoc_blocks_ok'), ('EmphDepthDoc', r'doc_full_depth_bounded'), 'GenC17', 'GenC02', ('Pipeline', r'parseDoc_panic|renderDoc_panic|doc_render_total|spliceNode_panic|sourceposNode_total'), ('Block', r'progress|tokenize_spec|ruleAt'), ('Inline', r'progress|fuel|contracts'),)),
     'C02': P('C02', [('nest', 4500, 36000), ('block', 3000, 24000), ('inline', 2500, 20000), ('pipeline', 1500, 12000)], ('C02', 3000, 20000),
              "oracle: 16 nesting families x sizes up to the budget x max_nesting in {0,1,3,10,100}; recursion gauge (hook) and tree depth compared with 4*max_nesting+16; non-trivial = size >= 150",
              ["actual stack exhaustion is a runtime fact; the model bounds frames and depth, the oracle observes the gauge on a 3 GiB-stack thread"], extra_modules=('EmphDepth', 'EmphDepthDoc', 'C02Doc', 'GenC02',)),
@@ -66,7 +66,7 @@ PROPS = {
              ["span payloads: continuation lines do not start a block construct (block structure wins in CommonMark)"], extra_modules=('C11SpanCtx', 'C11SpanMulti', 'C11Span', 'C11Nested', ('C14Doc', r'doc_fence|doc_indented'), ('Block', r'verbatim'),)),
     'C12': P('C12', [('entity', 20000, 160000), ('pipeline', 1500, 12000), ('inline', 2500, 20000)], ('C12', 12500, 100000),
              "oracle: named references of the entities table (all in thorough), numeric references over boundary classes + random sample in 3 spellings, 32 escapes x 5 contexts; round trip on random printable strings",
-             [], extra_modules=('C12Ctx', 'C12Doc',)),
+             [], extra_modules=(('GenTranslated', r'is_valid_entity_code|valid_code'), 'C12Ctx', 'C12Doc',)),
     'C13': P('C13', [('refs', 12500, 100000), ('pipeline', 1500, 12000), ('block', 3000, 24000)], ('C13', 20000, 160000),
              "oracle: k definitions (case/whitespace/case-fold variants, in quotes and items, before/after the use) x 4 use forms; expected target = first definition of the same base label",
              ["U+0131 dotless i is additionally identified with i/I by lower-then-upper normalisation (documented, not tested as a non-match)"], extra_modules=('C13Doc', 'C13Trace', ('LinksDoc', r'reference_no_node|first_wins|parseBlocks_refs$|tokenize_refs|reference_step|doc_reference|spliceNode_spec'),)),
@@ -82,7 +82,7 @@ PROPS = {
     'C17': P('C17', [('url', 20000, 160000)], ('C17', 20000, 160000),
              "url stream: byte strings biased to '%' near the end, hex/non-hex after '%', bytes >= 0x80, 8 safe-set families, both modes; non-trivial = contains a byte >= 0x80 or a '%' within the last three bytes; distinct by hash of the request line",
              ["bytes are modelled as Nat < 256 (hypothesis `Bytes bs`)",
-              "AsciiSet is modelled as its 128-bit constant; `has` is only consulted for bytes < 128 (short-circuit in the Rust)"], extra_modules=('GenC17', 'C17Set',)),
+              "AsciiSet is modelled as its 128-bit constant; `has` is only consulted for bytes < 128 (short-circuit in the Rust)"], extra_modules=('GenC17', ('GenTranslated', r'AsciiSet|has_'), 'C17Set',)),
     'C18': P('C18', [('alt', 12500, 100000), ('pipeline', 1500, 12000), ('noderender', 4000, 32000)], ('C18', 20000, 160000),
              "oracle: ![D](x) for generated inline descriptions; alt attribute vs plain-text display of the image node's own children",
              [], extra_modules=(('LinksDoc', r'doc_image_alt|doc_img_events'),)),
